@@ -72,3 +72,11 @@ package lamport
 //@   modifies pc.MemClock.counter, fileValue
 //@   ensures [witnessed-is-persisted] result == nil ==> fileValue[pc] == pc.MemClock.counter && pc.MemClock.counter >= time
 //@   ensures [monotone] pc.MemClock.counter >= old(pc.MemClock.counter)
+
+// Reading the clock back: a file that is there but does not hold a number - empty or cut short by an
+// interrupted write - counts as a missing clock (ErrClockNotExist), so that opening the repository rebuilds it
+// from the stored entities instead of failing for good (C06: "the logical clocks stay usable").
+//@ func (*PersistedClock).read
+//@   props C05 C06
+//@   requires pc != nil
+//@   check [unparsable-file-is-a-missing-clock] n != 1 ==> result == ErrClockNotExist
